@@ -364,6 +364,7 @@ def format_files(
         folder: (True, max_passes)
         for folder in folder_contents
     }
+    any_changes = False
     with mp.Pool(n_cores) as pool:
         for pass_number in range(1, max_passes + 1):
             files_to_format = set()
@@ -397,6 +398,7 @@ def format_files(
                 chunksize=1,
             )
             filename_changes = dict(zip(files_to_format, results))
+            any_changes = any_changes or any(results)
             for folder, files_in_folder in folder_contents.items():
                 _, passes_left = module_changes_pass_counts[folder]
                 changes = any(filename_changes.get(filename, False) for filename in files_in_folder)
@@ -411,7 +413,9 @@ def format_files(
                 total_modules=len(folder_contents),
             )
 
-    return any(changes for changes, _ in module_changes_pass_counts.values())
+    # Not the per-folder flags: they only tell whether the LAST pass changed something (they drive
+    # the convergence loop), so a run that rewrote files in pass 1 and converged in pass 2 said False.
+    return any_changes
 
 
 def _iter_python_files(paths: Iterable[Path]) -> Iterable[Path]:
